@@ -130,6 +130,20 @@ func (cw *c19World) close() {
 	}
 }
 
+var c19Worlds int
+
+type c19LogSink struct {
+	mu sync.Mutex
+	n  int
+}
+
+func (s *c19LogSink) Write(p []byte) (int, error) {
+	s.mu.Lock()
+	s.n += len(p)
+	s.mu.Unlock()
+	return len(p), nil
+}
+
 func newC19World(backend string) *c19World {
 	cw := &c19World{}
 	switch backend {
@@ -159,6 +173,11 @@ func newC19World(backend string) *c19World {
 			if err := db.AddOwnerKey(k.Type, lab.Key(k.PoolKey+"/own1"), lab.Chain(k.PoolKey+"/own1")); err != nil {
 				fatal("sqlite keys: %v", err)
 			}
+		}
+		// every other SQLite world has the store's statement log switched on (DB.DebugLog, off by default), into a sink that
+		// is safe for concurrent use: what the store does on the way to it runs under the race detector like everything else
+		if c19Worlds++; c19Worlds%2 == 0 {
+			db.DebugLog = &c19LogSink{}
 		}
 		cw.db, cw.back = db, db
 	}
